@@ -14,6 +14,7 @@ RULES = {
     "R-02.2": "every call that reaches a type's from_wire_parser with a length taken from the wire is inside `with parser.restrict_to(length)`; restrict_to raises when the region is not consumed exactly and restores the end",
     "R-02.4": "a flag packed into the high bit(s) of an integer field is split at the same bit on both sides: the constant the writer ORs in / shifts by and the constants the reader tests, clears or subtracts name one bit position",
     "R-02.5": "a wire reader that is given an origin hands it to every callee that takes one (parser.get_name, helper and per-type from_wire_parser, from_wire): an omitted origin silently falls back to the default None and relative names come back absolute",
+    "R-02.6": "optional numbers of the record and option codecs (prefix lengths, sizes) are tested for presence by identity with None, never by truthiness (a source prefix length of 0 is legal)",
     "R-02.3": "every RdataType member has a module dns/rdtypes/{ANY,IN,CH}/<NAME>.py with a class of that name deriving from Rdata with all four codec methods, or is in the frozen generic table",
 }
 
@@ -228,6 +229,11 @@ def run(model, rep, tier):
                         stmt="origin -> " + label)
     rep.floor("R-02.5", n_fw, 25)
 
+    # ---------------------------------------------------------------- R-02.6
+    from rules.common import presence_by_identity
+    presence_by_identity(model, rep, "R-02.6", ("dns.edns", "dns.rdtypes", "dns.rdata"), (), "an optional number",
+                         "e.g. an ECS option with source prefix length 0 is re-encoded with the default /24, so decode-then-encode is not a fixed point", 2, "dns.edns / dns.rdtypes / dns.rdata")
+
     # ---------------------------------------------------------------- R-02.2
     n_sites = 0
     for f in model.all_functions():
@@ -298,6 +304,8 @@ def run(model, rep, tier):
 
 
 WITNESSES = [
+    {"id": "c02-ecs-srclen-zero-defaulted", "rule": "R-02.6", "file": "dns/edns.py", "expect": "fires",
+     "old": "            if srclen is None:\n                srclen = 24\n", "new": "            srclen = srclen or 24\n"},
     {"id": "c02-amtrelay-helper-without-origin", "rule": "R-02.5", "file": "dns/rdtypes/ANY/AMTRELAY.py", "expect": "fires",
      "old": "        relay = Relay.from_wire_parser(relay_type, parser, origin)", "new": "        relay = Relay.from_wire_parser(relay_type, parser)"},
     {"id": "c02-twin-ipseckey-origin-keyword", "rule": "R-02.5", "file": "dns/rdtypes/IN/IPSECKEY.py", "expect": "silent",
